@@ -51,10 +51,12 @@ func GenTxOps(t *rapid.T, o TxGenOpts) []Op {
 				op.Key = -1 // the empty key: never stored, but the transaction is still looked up first
 			}
 			if k == "set" {
+				op.Same = rapid.IntRange(0, 9).Draw(t, "sameBytes") == 0
 				op.Len = GenLen(t, o.BigContent)
 				if rapid.IntRange(0, 5).Draw(t, "viaSel") == 0 {
 					op.Via, op.Split = GenVia(t, op.Len)
 					op.CancelClose = GenCancelClose(t, op.Via)
+					op.Src = GenSrc(t, op.Via)
 				}
 			}
 			if o.LateWeight > 0 && rapid.IntRange(1, 100).Draw(t, "late") <= o.LateWeight {
@@ -106,7 +108,7 @@ func GenConflictScenario(t *rapid.T) []Op {
 		if rapid.IntRange(0, 4).Draw(t, "scDel") == 0 {
 			return Op{K: "del", Key: key}
 		}
-		return Op{K: "set", Key: key, Len: rapid.IntRange(0, 20).Draw(t, "scLen")}
+		return Op{K: "set", Key: key, Len: rapid.IntRange(0, 20).Draw(t, "scLen"), Same: rapid.IntRange(0, 5).Draw(t, "scSame") == 0}
 	}
 	// the snapshot transaction's own writes (before and/or after the interfering commits)
 	early := rapid.Bool().Draw(t, "scEarly")
